@@ -23,7 +23,7 @@ INTERLEAVING_MEASURE = 'distinct (hint, object, rewrite kind) triples; draws enu
 COMPONENTS = c03.COMPONENTS
 ASSUMPTIONS = ['hand-rewriting replaces the class leaves of the hint DSL; Literal members, validators and TypeVar bounds are not rewritten '
                '(hint_overrides keys are compared by hint equality, so only whole child hints equal to a key are replaced)']
-PROBES = ['tower_cases', 'override_cases', 'vtype_cases', 'combined_option_cases', 'rewrite_below_top', 'verdict_depends_on_draw', 'rejections_both_sides']
+PROBES = ['tower_cases', 'override_cases', 'vtype_cases', 'combined_option_cases', 'plain_conf_same_hint', 'rewrite_below_top', 'verdict_depends_on_draw', 'rejections_both_sides']
 
 TOWER = {'float': {'k': 'pipe', 'a': [{'k': 'cls', 'n': 'float'}, {'k': 'cls', 'n': 'int'}]},
          'complex': {'k': 'pipe', 'a': [{'k': 'cls', 'n': 'complex'}, {'k': 'cls', 'n': 'float'}, {'k': 'cls', 'n': 'int'}]}}
@@ -215,7 +215,10 @@ def generate(rng, run, tier):
         vt = rng.choice([{'vt': 'exc'}, {'vt': 'warn'}, {'vdoor': 'valueerror'}, {'vparam': 'warn'}, {'vreturn': 'exc'},
                          {'vt': 'valueerror', 'vparam': 'warn'}])
     return {'kind': kind, 'h': h, 'h2': h2, 'x': o, 'override': ov, 'base': base, 'vt': vt, 'combo': combo,
-            'draws': c03.draws_for(rng, o, h2)}
+            'draws': c03.draws_for(rng, o, h2),
+            # the *unrewritten* hint is also checked under the plain configuration in the same process, before or after the
+            # option side: whatever one configuration caches for a hint must not be served to the other
+            'plain': rng.choice([None, 'first', 'first', 'last'])}
 
 
 def execute(case):
@@ -248,7 +251,15 @@ def execute(case):
         conf1['overrides'] = [case['override']]
     if case.get('vt'):
         conf1.update(case['vt'])        # side 1 also changes the signal class; the verdict must not move
+    plain = case.get('plain') if kind in ('tower', 'override', 'combo') else None
+    p0 = None
     try:
+        if plain == 'first':
+            p0 = entry.Prepared(hint1, conf2)
+            for draw in case['draws'][:2]:
+                for ep in p0.entry_points():
+                    p0.eval(ep, H.build_obj(case['x']), draw)
+            probes['plain_conf_same_hint'] = 1
         p1 = entry.Prepared(hint1, conf1)
         p2 = entry.Prepared(hint2, conf2)
     except Exception as e:      # noqa
@@ -281,6 +292,26 @@ def execute(case):
                 probes['rejections_both_sides'] += 1
         if viol:
             break
+    if viol is None and plain == 'last':
+        # the option side has run: the plain configuration on the unrewritten hint must still answer for the unrewritten hint
+        probes['plain_conf_same_hint'] = 1
+        try:
+            p0 = entry.Prepared(hint1, conf2)
+            x = H.build_obj(case['x'])
+            want = 'accept' if H.conforms(case['h'], x) else ('reject' if H.must_reject(case['h'], x) else None)
+        except Exception:       # noqa
+            want = None
+        if want is not None:
+            for draw in case['draws'][:2]:
+                for ep in p0.entry_points():
+                    o0 = p0.eval(ep, H.build_obj(case['x']), draw)
+                    c0 = entry.classify(o0, p0.conf)
+                    if c0 != want and c0 != 'error':
+                        viol = ('plain_side_contaminated', 'draw %d: %s under the plain configuration on the UNREWRITTEN hint, evaluated after the '
+                                'option side: %s, the reference model says %s' % (draw, ep, c0, want), 'plain:' + kind + ':' + ep)
+                        break
+                if viol:
+                    break
     if len(seen) > 1:
         probes['verdict_depends_on_draw'] = 1
     return c03._out({'h': case['h'], 'x': case['x'], 'conf': conf1, 'draws': case['draws']}, probes, viol,
